@@ -13,6 +13,8 @@ def register(pid, text, note, technique, design_ref):
     CHECKS[pid] = dict(text=text, note=note, technique=technique, design_ref=design_ref)
 
 ALL = [f"C{i:02d}" for i in range(1, 21)]
+# properties whose complete check (proof obligations + ties + direct evaluation) is in place and green on the unchanged tree
+READY = set(open('/verif/harness/READY').read().split()) if __import__('os').path.exists('/verif/harness/READY') else set(ALL)
 
 def build():
     props = {}
@@ -23,7 +25,7 @@ def build():
             m = importlib.import_module(f"harness.props.{pid.lower()}")
         except ModuleNotFoundError:
             continue
-        if hasattr(m, "MANIFEST"):
+        if hasattr(m, "MANIFEST") and pid in READY:
             register(pid, **m.MANIFEST)
     checks = []
     for pid in ALL:
